@@ -109,7 +109,7 @@ CHECKS["C02"] = {
             "reachable world where nothing can move, every thread asleep in lock/rlock faces a mutex that is still held, and the last "
             "holder's release is forced onto the path that scans the queue and wakes somebody (who-wakes-whom invariant HInv, "
             "Proof/MuProof3.v).  Global progress over thousands of schedules is also decided by the runtime's stuck detector; the model "
-            "is replayed in lock-step against the real mu.c.",
+            "is replayed in lock-step against the real mu.c.  Third session: the hand-off invariant also over mutex + cv waits (Properties_C04x: C04x_handoff_all_states, C04x_last_holder_must_scan); the fourth review found F16 (a generic-interface cv waiter moved onto the mutex queue left MU_DESIG_WAKER set for ever: a later locker slept on a free mutex), reproduced on the real library and by the scenario cv_mixlocks, repaired in /repo f28c99f.",
     "design_ref": "DESIGN.md section 4, C02",
     "note": "Reader half as first written is refuted by writer-priority schedules and restated (coverage.partial); fairness-based liveness not a theorem.",
     "technique": "Coq invariants over source-regenerated transition system + lock-step tie + stuck-state detection on schedules",
@@ -118,9 +118,9 @@ CHECKS["C13"] = {
     "text": "Theorems (Coq) over MuModel: after a release's last successful word CAS only waiter records are touched (C13_last_cas), "
             "uncontended releases end in that very step, and between an early release and that last CAS the mutex is pinned by a non-empty "
             "queue/wake list whose members are still inside nsync_mu_lock (C13_pinned), for any threads/programs/schedules.  The refcount "
-            "pattern and the waker-vs-wait_n half are run against an arena that unmaps freed blocks and a dead-stack-frame check.  Third session: the reference-count theorem with an explicit free over MuRefModel (C13r_no_touch_after_free, C13r_tail_after_free, C13r_reader_variant; in-lock read-mode decrement refuted as a client error), and C13sw_no_dead_touch for cancellable waits' on-stack records (SemWaitModel).  The audit of C13r found F15 (stale MU_WAITING from cv.c's wake_waiters lets the pattern free the mutex under a thread still in nsync_mu_unlock_slow_): reproduced by the scripted scenario refcount_cv and repaired in /repo 0f631a1; the theorem WITH cv traffic is C13x_no_touch_after_free over MuXRefModel (mutex + cv waits + nsync_wait_n records + non-user signallers), and C13x_old_code_refuted shows the pre-repair release step reaches a touch-after-free on the F15 schedule.",
+            "pattern and the waker-vs-wait_n half are run against an arena that unmaps freed blocks and a dead-stack-frame check.  Third session: the reference-count theorem with an explicit free over MuRefModel (C13r_no_touch_after_free, C13r_tail_after_free, C13r_reader_variant; in-lock read-mode decrement refuted as a client error), and C13sw_no_dead_touch for cancellable waits' on-stack records (SemWaitModel).  The audit of C13r found F15 (stale MU_WAITING from cv.c's wake_waiters lets the pattern free the mutex under a thread still in nsync_mu_unlock_slow_): reproduced by the scripted scenario refcount_cv and repaired in /repo 0f631a1; the theorem WITH cv traffic is C13x_no_touch_after_free over MuXRefModel (mutex + cv waits + nsync_wait_n records + non-user signallers), and C13x_old_code_refuted shows the pre-repair release step reaches a touch-after-free on the F15 schedule; around conditional critical sections (nsync_mu_wait users, timeouts inside the critical section) it is C13w_no_touch_after_free over MuWRefModel.",
     "design_ref": "DESIGN.md section 4, C13",
-    "note": "The pattern around nsync_mu_wait on the same mutex is decided by the arena oracle (refcount VRT_MUWAIT, mix_all); waker half vs nsync_wait_n: oracle (coverage.partial).",
+    "note": "Mutex + cv + nsync_mu_wait users TOGETHER: arena oracle (mix_all) only; waker half vs nsync_wait_n: oracle (coverage.partial).",
     "technique": "Coq invariants over source-regenerated transition systems (mutex, refcount wrapper, sem_wait) + lock-step trace inclusion + arena/dead-stack oracles on schedules",
 }
 CHECKS["C14"] = {
@@ -192,7 +192,7 @@ CHECKS["C04"] = {
             "accounts for what it took (C04_wake_complete); a taken waiter always has a post available, pending or owed (C04_no_lost_wakeup), hence "
             "no quiescent world with a waiter asleep off the queue (C04_no_stuck); no step touches a nsync_wait_n record after its call returned, "
             "the waker's V included (C04_no_dead_record) -- any threads / programs / schedules / clock / note.  "
-            "Lock-step replay with queue snapshots; stuck detector + return-value oracles over cv scenarios.  Third session: the concrete counterpart of the abstract mutex, MuXferModel (Properties_C01x / C04x): a transferred waiter is on the mutex queue or a releaser's wake list with MU_WAITING set (C04x_transfer_sound, C04x_queue_sets_waiting); after the F15 repair wake_waiters leaves MU_WAITING set only over a non-empty queue.",
+            "Lock-step replay with queue snapshots; stuck detector + return-value oracles over cv scenarios.  Third session: the concrete counterpart of the abstract mutex, MuXferModel (Properties_C01x / C04x): a transferred waiter is on the mutex queue or a releaser's wake list with MU_WAITING set (C04x_transfer_sound, C04x_queue_sets_waiting); after the F15 repair wake_waiters leaves MU_WAITING set only over a non-empty queue.  After the F16 repair: C04_transferred_is_native (only native waiters associated with the mutex are moved to its queue), C04_old_xfer_moves_generic (the old transfer loop moved a generic waiter); cv_mix mixes native and generic waiters by default and every cv scenario ends with both words 0.",
     "design_ref": "DESIGN.md section 4, C04",
     "note": "No lost wake-up and no-stuck are theorems relative to the abstract mutex owing no post (coverage.partial); abstract mutex inside CvModel.",
     "technique": "Coq invariants over source-regenerated transition system + lock-step trace inclusion + scenario oracles",
